@@ -148,4 +148,9 @@ def run(F, G):
     got = {k.rsplit("::", 1)[-1]: v.get("s") for k, v in F.consts.items() if k.endswith("_SQL")}
     if got.get("MODULE_SQL") != "SELECT 1 FROM module_level" or got.get("LOCAL_SQL") != "SELECT 2 FROM fn_level":
         fails.append("named-const control: &str constants not resolved (%s)" % got)
+    # 9. named integer-array constants resolve to their elements
+    n += 1
+    arr = [v.get("arr") for k, v in F.consts.items() if k.endswith("::LOCK_BYTES")]
+    if arr != [[120, 121, -2]]:
+        fails.append("array-const control: LOCK_BYTES not resolved (%s)" % arr)
     return n, fails
